@@ -113,7 +113,9 @@ DevSig(d, e) ==
     [] d = "Dev_C05_T1D" -> e.op = "t" /\ e.outcome = "ValueError" /\ Len(e.before.shape) < 2
     [] d = "Dev_C05_WhereOther" -> e.op = "where" /\ e.outcome = "NotImplementedError" /\ e.aux.kind = "QBytes"
     [] d = "Dev_C05_LtFloat8" -> e.op = "lt" /\ e.outcome = "NotImplementedError" /\ e.before.qt \in {"qfloat8_e4m3fn", "qfloat8_e5m2"} /\ e.aux.kind = "QBytes"
-    [] d = "Dev_C05_CopyPlain" -> e.op = "copy_" /\ e.outcome \in {"AttributeError", "AssertionError"} /\ (e.aux.kind # "QBytes" \/ e.before.kind # "QBytes")
+    [] d = "Dev_C05_CopyPlain" -> e.op = "copy_" /\ (e.aux.kind # "QBytes" \/ e.before.kind # "QBytes")
+                                  /\ (e.outcome \in {"AttributeError", "AssertionError"}
+                                      \/ (e.outcome = "value" /\ e.before.kind = "QBits"))    \* copy into a packed tensor is silently lost
     [] d = "Dev_C05_DivTensor" -> e.op = "div_tensor" /\ e.outcome = "RecursionError"
     [] d = "Dev_C05_NegMin" -> e.op = "neg" /\ e.outcome = "value" /\ e.before.qt = "qint8" /\ IsQK(e.after.kind)
                                /\ <<-1, 128>> \in {e.before.codes[i] : i \in 1..Len(e.before.codes)}
